@@ -469,6 +469,43 @@ def bspResize (p : PSlice) (size : Nat) : PSlice :=
 /-- the elements `[0:len)` of a slice -/
 def PSlice.elems (p : PSlice) : List Byte := p.cells.take p.len
 
+/-! ### `ByteSlicePool` callers as threads of the ownership model -/
+
+/-- `Resize(orig, size)` as buffer traffic. Within the capacity: none (the result is `orig[0:size]`,
+the same array). Growing: `temp := make(…); copy(temp, orig)` into a NEW array; the original is
+left alone — unless the source hands it to the pool (`putsOrig`, a T1 fact: is `Resize` among the
+functions that call `Put`?). `h` = handle of `orig`, `nh` = next free handle, `len = len(orig)`. -/
+def bspResizeProg (putsOrig : Bool) (h nh len : Nat) (grow : Bool) : List Instr :=
+  if grow then [.alloc len, .copy ⟨nh, 0, len⟩ ⟨h, 0, len⟩] ++ (if putsOrig then [.put h] else [])
+  else []
+
+/-- a caller: `buf := Get(); defer Put(buf)`; write `vals`; `buf = Resize(buf, …)`; write `more`
+behind them and read everything back; read the ORIGINAL once more (the caller still owns it);
+Put the original, and the grown slice when there is one. -/
+def bspCallerProg (putsOrig : Bool) (vals : List Byte) (grow : Bool) (more : List Byte) : List Instr :=
+  [.get, .write 0 0 vals] ++ bspResizeProg putsOrig 0 1 vals.length grow
+  ++ (if grow then [.write 1 vals.length more, .use ⟨1, 0, vals.length + more.length⟩]
+      else [.write 0 vals.length more, .use ⟨0, 0, vals.length + more.length⟩])
+  ++ [.use ⟨0, 0, vals.length⟩, .put 0] ++ (if grow then [.put 1] else [])
+
+/-- a caller that only takes a slice, writes, (is descheduled,) reads back, and puts -/
+def bspUserProg (vals : List Byte) : List Instr :=
+  [.get, .write 0 0 vals, .yield, .use ⟨0, 0, vals.length⟩, .put 0]
+
+/-- witness system for a `Resize` that pools its argument: caller 0 grows; callers 1 and 2 then
+each take a slice -/
+def bspWitnessProgs (putsOrig : Bool) : Nat → List Instr
+  | 0 => bspCallerProg putsOrig [65, 65] true [65]
+  | 1 => bspUserProg [66, 66]
+  | 2 => bspUserProg [67, 67]
+  | _ => []
+
+/-- caller 0 completely; caller 1 Gets (the pool hands out array 0) and writes; caller 2 Gets
+(array 0 again, if it is in the pool a second time; otherwise a fresh one) and writes; caller 1
+reads back -/
+def bspWitnessSched (second : Option Nat) : List (Nat × Option Nat) :=
+  List.replicate 12 (0, none) ++ [(1, some 0), (1, none), (1, none), (2, second), (2, none), (1, none)]
+
 /-! ## the logger registry and the package-level parser/logger variables -/
 
 /-- registry operations: `NewLogger(name)` answers the identity (creation rank) of the logger
